@@ -115,6 +115,7 @@ func handleInv(raw json.RawMessage) interface{} {
 		return map[string]interface{}{"obs": "harness-error", "detail": err.Error()}
 	}
 	if c.Var != "" {
+		zn.InstallDisplay() // the predefined 显示 prints to stdout, which carries the worker protocol
 		m, err := exec.ExecVarInputText(c.Var)
 		if err != nil {
 			return map[string]interface{}{"obs": "zn-error", "msg": lastLine(err.Error())}
